@@ -30,6 +30,15 @@ var metas = map[string]PropMeta{
 		NotDecided:  []string{"nothing beyond the trusted base: the rules cover every position of the model"},
 		Assumptions: idxAssume,
 	},
+	"C16": {
+		Explanation: "Write-effect summaries: for New and each of the exported *Spec methods, the transitive set of stores (assignments to fields/elements/pointees, delete, in-place external mutators such as sort.* and spec.Expand*) is computed with targets as access paths; stores into locals created in the call and into value copies are dropped; what remains must be empty. No goroutine/channel operation is reachable; the pattern/enum getters return maps allocated in the call.",
+		NotDecided:  []string{"element slices shared by the cloned enum maps (outside the statement)", "thread-safety of the read-only external callees (trusted base)"},
+		Assumptions: []string{
+			"alias resolution is by access path: a local is followed through all of its definitions; closures share their enclosing function's variables; calls through function-typed parameters (ErrorOnParamFunc) are the caller's responsibility",
+			"external callees are classified by two tables read from their sources (mutating: spec.ExpandSpec/ExpandSchema, swag.FromDynamicJSON, AddExtension, sort.*; read-only: jsonpointer, jsonreference, fmt, strings, path, strconv, swag name helpers); any other external callee receiving caller-visible pointer-like data makes the obligation undecided",
+			"the caller publishes the *Spec to other goroutines safely after New returns",
+		},
+	},
 	"C14": {
 		Explanation: "Abstract evaluation of analysis.New for the operations index and the required-media/security unions, exhaustiveness over the seven *spec.Operation fields, upper-case discipline of insertion and lookup, and the nil-vs-empty guard shape of the precedence functions.",
 		NotDecided:  []string{"the values of the precedence/union tables on concrete lists (value-level)", "OperationForName on duplicate or empty ids (outside the quantifier)"},
